@@ -11,7 +11,7 @@ use serde_json::{Value, json};
 use std::time::Duration;
 
 pub fn meta(rep: &mut Report) {
-    rep.rule = "base conversations: BMC (bad states jointly / individually) and PDR (unsat-core generalisation on / off) on six systems (safe, failing at step 0, failing at step 3, with arrays, with constraints, stateless) x personas; for every response-bearing command n of the fault-free conversation (check-sat, check-sat-assuming, get-value, get-unsat-assumptions, numbered across PDR's solver restart) x every fault kind (error reply with message lengths 0,1,5,6,7,8,40 and with quotes / balanced / unbalanced parentheses, solver staying alive or exiting; unknown; empty line; unbalanced prefix of the correct reply then exit; exit 0 without reply; exit 1 with stderr text; balanced garbage; unbalanced garbage then exit) one run is made with that fault injected by the reference solver. Oracle: the call returns Err or Ok(Unknown) - never Ok(Success|Fail), never a panic, always within the deadline (twice) - and for error replies the returned error text contains the solver's message verbatim. distinct_nontrivial = distinct (conversation, point, fault) runs in which the fault was actually delivered (the solver logged it)".into();
+    rep.rule = "base conversations: BMC (bad states jointly / individually) and PDR (unsat-core generalisation on / off) on six systems (safe, failing at step 0, failing at step 3, with arrays, with constraints, stateless) x personas; for every response-bearing command n of the fault-free conversation (check-sat, check-sat-assuming, get-value, get-unsat-assumptions, numbered across PDR's solver restart) x every fault kind (error reply with message lengths 0,1,5,6,7,8,40 and with quotes / balanced / unbalanced parentheses, solver staying alive or exiting; unknown; empty line; unbalanced prefix of the correct reply then exit; exit 0 without reply; exit 1 with stderr text; balanced garbage; unbalanced garbage then exit) one run is made with that fault injected by the reference solver. Oracle: the call returns Err or Ok(Unknown) - never Ok(Success|Fail), never a panic, always within the deadline (twice) - and for error replies the returned error text contains the solver's message verbatim. distinct_nontrivial = distinct fault situations (conversation, kind of command at the fault point, fault kind and parameter) in which the fault was actually delivered (the solver logged it); evaluations counts every fault position separately".into();
     rep.assumptions = vec![
         "faults are injected only at response-bearing commands; every answer in these conversations is load-bearing for the verdict".into(),
         "termination is observed as 'returns within the deadline, twice'".into(),
@@ -242,7 +242,7 @@ pub fn run(opts: &Opts, rep: &Report) {
             rep.add(&format!("outcome:{}", res["verdict"].as_str().unwrap_or("?")), 1);
             let delivered = res["log"].as_str().map(|l| l.contains("! fault")).unwrap_or(false) || res["verdict"] == "timeout" || res["verdict"] == "crash";
             if delivered {
-                hs.push(hash64(&format!("{}|{}|{}|{}|{}", r.sys_label, r.cfg.tag(), r.point, r.kind, r.param)));
+                hs.push(hash64(&format!("{}|{}|{}|{}|{}", r.sys_label, r.cfg.tag(), r.cmd, r.kind, r.param)));
             } else {
                 rep.add("fault_not_delivered", 1);
             }
